@@ -5,6 +5,7 @@ import (
 	"fmt"
 	"os"
 	"path/filepath"
+	"strconv"
 	"strings"
 	"sync"
 
@@ -57,7 +58,14 @@ func (c c13Case) text() string {
 		sb.WriteString("\ntask tmpl() {\n    echo nothing\n}\n\n")
 	}
 	sb.WriteString(c.declText("between"))
-	fmt.Fprintf(&sb, "task envt() {\n    printf '%%s\\n' \"$%s\"\n", c.Name)
+	if c.Kind == "execbig" {
+		// a value too long for one argument of execve: read by the shell itself and written, by the shell itself, to a file
+		fmt.Fprintf(&sb, "task envt() {\n    printf '%%s' \"$%s\" > \"$VCTL/big.out\"\n}\n\n", c.Name)
+		sb.WriteString(c.declText("below"))
+		return sb.String()
+	}
+	// the first command rebinds the name inside its own shell: later commands still get the spokfile value
+	fmt.Fprintf(&sb, "task envt() {\n    %s=shadowed && export %s\n    printf '%%s\\n' \"$%s\"\n", c.Name, c.Name, c.Name)
 	if c.Second {
 		sb.WriteString("    printf '%s\\n' \"$W\"\n")
 	}
@@ -90,6 +98,8 @@ func (c c13Case) declText(pos string) string {
 		fmt.Fprintf(&sb, "%s := exec(\"printf '  \\n %s \\t\\n\\n'\")\n", c.Name, c.Value)
 	case "execraw":
 		fmt.Fprintf(&sb, "%s := exec(\"%s\")\n", c.Name, c.Cmd)
+	case "execbig":
+		fmt.Fprintf(&sb, "%s := exec(\"head -c %s /dev/zero | tr '\\0' a\")\n", c.Name, c.Value)
 	case "execfail":
 		fmt.Fprintf(&sb, "%s := exec(\"exit 3\")\n", c.Name)
 	}
@@ -143,6 +153,12 @@ func c13Cases(tier string) []c13Case {
 		}
 	}
 	out = append(out, c13Case{Name: "V", Kind: "execfail"}, c13Case{Name: "DOT", Kind: "execfail"})
+	// values around the longest string one argument of execve may be (131072 bytes incl. "NAME=" and the NUL)
+	for _, n := range []string{"131069", "131070", "131071", "200000"} {
+		out = append(out, c13Case{Name: "V", Kind: "execbig", Value: n}, c13Case{Name: "AMB", Kind: "execbig", Value: n})
+	}
+	// exec whose command reads a variable that only the .env file provides
+	out = append(out, c13Case{Name: "V", Kind: "execraw", Cmd: `echo got-$DOT`, Value: "got-dotvalue"})
 	// exec whose command writes to standard error, and nothing or only white space to standard output
 	for _, n := range []string{"V", "AMB"} {
 		out = append(out,
@@ -182,6 +198,18 @@ func c13Run(root string, c c13Case) (obs []c13Obs, inv int) {
 		if !filepath.IsAbs(want) {
 			want = filepath.Join(cwd, want)
 		}
+	case "execbig":
+		ctl := t.Mkdir("ctl")
+		o := bin.Run(cwd, home, append(env, "VCTL="+ctl), "envt", "--json")
+		inv++
+		if o.Exit != 0 || o.Died() {
+			return []c13Obs{{"unexpected-failure", fmt.Sprintf("envt --json with a %s-byte value: exit=%d stderr=%s", c.Value, o.Exit, firstLines(o.Stderr, 3))}}, inv
+		}
+		got, _ := os.ReadFile(filepath.Join(ctl, "big.out"))
+		if n, _ := strconv.Atoi(c.Value); len(got) != n || strings.Trim(string(got), "a") != "" {
+			obs = append(obs, c13Obs{"env-value-differs", fmt.Sprintf("the variable holds %s bytes; what the command's environment holds has %d bytes (%q...)", c.Value, len(got), clip(string(got)))})
+		}
+		return
 	case "execfail":
 		o := bin.Run(cwd, home, env, "envt", "--json")
 		inv++
@@ -227,7 +255,7 @@ func c13Run(root string, c c13Case) (obs []c13Obs, inv int) {
 	if o.Exit != 0 || o.Died() || json.Unmarshal([]byte(o.Stdout), &rep) != nil || len(rep) != 1 {
 		obs = append(obs, c13Obs{"unexpected-failure", fmt.Sprintf("envt --json: exit=%d stdout=%q stderr=%s", o.Exit, clip(o.Stdout), firstLines(o.Stderr, 3))})
 	} else {
-		wantEnv := []string{want + "\n"}
+		wantEnv := []string{"", want + "\n"} // the first command prints nothing
 		if c.Second {
 			wantEnv = append(wantEnv, "second\n")
 		}
@@ -242,7 +270,7 @@ func c13Run(root string, c c13Case) (obs []c13Obs, inv int) {
 			}
 			if got := rep[0].Results[i].Stdout; got != w {
 				cls := "env-value-differs"
-				if c.Name != "V" && i == 0 {
+				if c.Name != "V" && i == 1 {
 					cls = "ambient-or-dotenv-value-wins"
 				}
 				obs = append(obs, c13Obs{cls, fmt.Sprintf("command `%s` printed %q, the variable's spokfile value is %q", rep[0].Results[i].Cmd, got, strings.TrimSuffix(w, "\n"))})
